@@ -33,16 +33,67 @@ DRIVER = 'drv_c07'
 GENERATED = ['C07SaveRule']
 
 CLAIM = {
-    'technique': 'Lean 4 invariant over every prefix of the event trace of a run (calls + individual file-system '
-                 'steps of every save) for two write disciplines, composed with the C05 loop theorems + fault '
-                 'enumeration on the real code (exception and hard-kill snapshot after every event, torn writes)',
-    'text': '',
-    'note': '',
+    'technique': 'Lean 4 proof over EVERY prefix of the event trace of a run (calls + the individual file-system '
+                 'steps of every partial/final save) for two write disciplines, composed with the C05 loop '
+                 'specification; write discipline and save-rule constants regenerated from the source; fault '
+                 'enumeration on the real code (exception and hard-kill snapshot after every instrumented event, '
+                 'torn writes) compared with the model per crash point',
+    'text': 'Model = the C05 runner machine + a durable store (per variation: absent | torn | valid(acc, skipped, rep, '
+            'tag), plus a temp-file flag; one slot for the final results file) + the schedule of '
+            'save_partial_results_maybe driven by an arbitrary stream of call durations + the trace of everything '
+            'a crash can separate. Kernel-checked for every results type and merge (no law assumed), every rep_max, '
+            '_keep_going, number of variations, save period/threshold, duration stream (= every save schedule), '
+            'outcome stream, and EVERY crash point (any prefix of the trace, i.e. inside any repetition and between '
+            'any two file-system steps of any save): (1) crash_never_worse / saved_is_prefix_merge_run: after the '
+            'crash every variation before the interrupted one holds its final state, the interrupted one holds its '
+            'old file or the merge of a PREFIX of its own outcomes, later files are untouched, the segments are '
+            'disjoint pieces of the stream; with temp+os.replace no file is ever torn; (2) saved_is_prefix_merge: '
+            'invariant over any number of interrupted runs - every file is missing or the merge and count of one '
+            'sequence of successful calls, tagged with its own parameters; (3) resume_exact: a restart with the same '
+            'parameters on the crash disk never raises, and when it returns each variation\'s result and count are '
+            'those of ONE run over (durably saved prefix of run 1) ++ (what run 2 executed), guard false at the end, '
+            'resume_completes: it returns normally when the stream holds n*max(1,rep_max) successes, '
+            'calls = |seg2| per variation in order - nothing lost, nothing counted twice; resume_exact_count: with '
+            'the default _keep_going exactly rep_max repetitions for every variation; restart_never_fails on every '
+            'reachable disk; completed_variation_not_rerun; restart_ignores_temp_files (leftover .tmp, swept .tmp, '
+            'half-written final file make no difference); (4) mismatch_refused: a file saved for other parameters '
+            '=> no normal return, no call and no write for that variation, ValueError; (5) torn_breaks_restart: '
+            'negative witness for in-place writing (the code before the fix); simulate_spec ties a complete run to '
+            'the C05 specification. generated_save_matches_model is re-proved against the source on every run: the '
+            'file-system steps of _save_to_pickle/_save_to_json must be [open tmp, write, os.replace] and the save '
+            'rule `> 300 or % 500 == 0`. The model is tied to runner.py/results.py by fault enumeration: every event '
+            'of the trace is an instrumented step of the code (call, open, write, os.replace); for every scenario '
+            'and every crash point (plus 3 torn-write variants per write) the files after the crash, restart status, '
+            'call log, runned_reps, stored statistics (unique per-call tokens) and files after the restart are '
+            'compared with the model, once with exception unwinding and once on a directory snapshot taken at the '
+            'crash (hard kill); independent oracles re-check the property from files and raw call logs.',
+    'note': 'Trusted beyond the common base: the hand model <-> code correspondence (a behaviour not reached by the '
+            'generators is not tied); harness/gen/c07.py recognising the write steps in the AST; os.replace is '
+            'atomic and durable, fsync ordering / page cache below it are outside the model (the snapshot hard kill '
+            'shows the directory as the OS has it at that moment, not a power loss); pickle of a complete file '
+            'loads, a proper prefix of a pickle never loads. Termination is relative to the outcome stream: '
+            'resume_completes proves a normal return whenever the stream holds n*max(1,rep_max) successful outcomes; '
+            'a _run_simulation that skips for ever is the explicit Exhausted ending. Not modelled: '
+            'delete_partial_results_bool=True (deleting partial files after the final save; that path is checked by the '
+            'property oracles on the real code only, every crash point incl. between the removals), simulate(index) '
+            'under crashes, simulate_in_parallel, progress bars, a change in the number of digits of the variation '
+            'count between runs (other file names). The in-place model is kept for the negative witness; it matched '
+            'the unfixed code on every exception crash point.',
 }
 
 PERIOD = 500
 SECS = 300
 BASE = 'res'
+TOKBITS = 480      # the unique token 2^position is stored in chunks (pyphysim's Result converts to float)
+
+
+def ntok(case):
+    return (len(case['outs1']) + len(case['outs2'])) // TOKBITS + 1
+
+
+def tok_of(res, j, n):
+    """the token sum of the j-th stored variation, reassembled from its chunks"""
+    return sum(int(res['tok%d' % k][j]._value) << (TOKBITS * k) for k in range(n))
 
 
 class Crash(BaseException):
@@ -249,6 +300,7 @@ class Instrument:
         self.rmod = rmod
         self.real_open = builtins.open
         self.real_replace = os.replace
+        self.real_remove = os.remove
         self.real_time = rmod.time
         hooks = self.hooks
         real_open = self.real_open
@@ -273,14 +325,26 @@ class Instrument:
             if hooks is not None and hooks.inside(dst):
                 hooks.event(('F' if hooks.is_final(dst) else '') + 'rename')
             return r
+        real_remove = self.real_remove
+
+        def my_remove(path, *a, **k):
+            r = real_remove(path, *a, **k)
+            # deleting a partial-results file (delete_partial_results_bool); the clean-up of a temp
+            # file during exception unwinding is not an event of the run
+            if hooks is not None and hooks.fired is None and hooks.inside(path) \
+                    and not os.fspath(path).endswith('.tmp'):
+                hooks.event('remove')
+            return r
         builtins.open = my_open
         os.replace = my_replace
+        os.remove = my_remove
         rmod.time = self.clock
         return self
 
     def __exit__(self, *a):
         builtins.open = self.real_open
         os.replace = self.real_replace
+        os.remove = self.real_remove
         self.rmod.time = self.real_time
         return False
 
@@ -293,6 +357,7 @@ def make_runner(case, which, root, hooks, clock, log):
     clk = case['clk%d' % which]
     off = 0 if which == 1 else len(case['outs1'])
     keep = case['keep']
+    nt = ntok(case)
 
     class Scripted(SimulationRunner):
         def __init__(self):
@@ -314,7 +379,9 @@ def make_runner(case, which, root, hooks, clock, log):
                 raise SkipThisOne('scripted skip')
             r = SimulationResults()
             r.add_new_result('sum', Result.SUMTYPE, o)
-            r.add_new_result('tok', Result.SUMTYPE, 1 << (off + c))
+            for k in range(nt):
+                r.add_new_result('tok%d' % k, Result.SUMTYPE,
+                                 (1 << ((off + c) % TOKBITS)) if (off + c) // TOKBITS == k else 0)
             return r
 
         def _keep_going(self, current_params, current_sim_results, current_rep):
@@ -326,6 +393,8 @@ def make_runner(case, which, root, hooks, clock, log):
     runner.rep_max = case['rm%d' % which]
     make_params(runner.params, case['p%d' % which])
     runner.set_results_filename(BASE + case.get('ext', ''))
+    if case.get('delete'):
+        runner.delete_partial_results_bool = True
     return runner
 
 
@@ -360,7 +429,7 @@ def read_disk(case, root, tab):
                 sr = SimulationResults.load_from_file(fn)
                 tag = tab.get(params_key(sr.params), 'x')
                 f = (int(sr.current_rep), int(sr['num_skipped_reps'][-1]._value), sr['sum'][-1]._value,
-                     sr['tok'][-1]._value, tag)
+                     tok_of(sr, -1, ntok(case)), tag)
                 s = 'V%s.%s.%s.%s.%s' % (_int(f[0]), _int(f[1]), _int(f[2]), _int(f[3]), f[4])
                 facts[i] = f
             except Exception as e:      # a file that cannot be loaded
@@ -376,7 +445,7 @@ def read_disk(case, root, tab):
             sr = SimulationResults.load_from_file(fn)
             n = len(sr['sum'])
             s = 'V%s/%s' % (','.join(_int(r) for r in sr.runned_reps), '_'.join(
-                '%s.%s.%s' % (_int(sr['sum'][j]._value), _int(sr['tok'][j]._value),
+                '%s.%s.%s' % (_int(sr['sum'][j]._value), _int(tok_of(sr, j, ntok(case))),
                               _int(sr['num_skipped_reps'][j]._value)) for j in range(n)))
         except Exception:
             s = 'T'
@@ -410,11 +479,12 @@ def run_to_end(case, which, root, tab, hooks=None):
         os.chdir(cwd)
     res = runner.results
     n = len(res['sum']) if 'sum' in res.get_result_names() else 0
-    stats = ['%s.%s.%s' % (_int(res['sum'][j]._value), _int(res['tok'][j]._value),
+    nt = ntok(case)
+    stats = ['%s.%s.%s' % (_int(res['sum'][j]._value), _int(tok_of(res, j, nt)),
                            _int(res['num_skipped_reps'][j]._value)) for j in range(n)]
     reps = runner.runned_reps if isinstance(runner.runned_reps, list) else [runner.runned_reps]
     return {'status': status, 'log': log, 'reps': [int(r) for r in reps], 'stats': stats,
-            'toks': [res['tok'][j]._value for j in range(n)]}
+            'toks': [tok_of(res, j, nt) for j in range(n)]}
 
 
 def trace_kinds(case, scratch):
@@ -719,7 +789,7 @@ def exhaustive_cases():
 
 
 # ------------------------------------------------------------------ the check
-def run_case(ctx, case, pts=None, tears=True, hard=True, name='crash-restart'):
+def run_case(ctx, case, pts=None, tears=(0.0, 0.5, 1.0), hard=True, name='crash-restart'):
     """all (or the listed) crash points of one scenario: correspondence + oracles"""
     tab = tag_table(case)
     kinds, ob_full = trace_kinds(case, ctx.scratch)
@@ -740,7 +810,7 @@ def run_case(ctx, case, pts=None, tears=True, hard=True, name='crash-restart'):
     if tears:
         for m in points:
             if m >= 1 and m <= len(kinds) and kinds[m - 1].endswith(('tmpWrite', 'write')) and (m - 1) in mpts:
-                for frac in (0.0, 0.5, 1.0):
+                for frac in tears:
                     jobs.append((m - 1, (m, frac)))
     for m, tear in jobs:
         r = crash_and_restart(case, m, tear, ctx.scratch, tab, hard=hard)
@@ -774,7 +844,32 @@ def run_case(ctx, case, pts=None, tears=True, hard=True, name='crash-restart'):
                 ctx.branch('oracle-ok')
 
 
-def boundary_points(kinds, rng, extra=6):
+def run_case_oracles_only(ctx, case, name='delete-partial-results'):
+    """a path the model does not cover (delete_partial_results_bool=True: the partial files are removed
+    after the final save): every crash point, property oracles on the real code only"""
+    tab = tag_table(case)
+    kinds, ob_full = trace_kinds(case, ctx.scratch)
+    for m in range(len(kinds) + 1):
+        r = crash_and_restart(case, m, None, ctx.scratch, tab, hard=True)
+        for kind in ('soft', 'hard'):
+            ob = r.get(kind)
+            if ob is None:
+                continue
+            rec = {'case': case, 'm': m, 'tear': None, 'hard': kind == 'hard'}
+            evk = kinds[m - 1] if 1 <= m <= len(kinds) else 'start'
+            ctx.count((name, evk, kind, ob['run2']['status'], m), True)
+            ctx.branch('oracle-only:' + name)
+            if evk == 'remove':
+                ctx.branch('crash:remove')
+            seen = set()
+            for call, cls, detail in oracle_point(case, ob):
+                if (call, cls) not in seen:
+                    seen.add((call, cls))
+                    ctx.fail(call, cls, rec, detail)
+                    ctx.branch('oracle-fail:' + cls)
+
+
+def boundary_points(kinds, rng, extra=3):
     """crash points around every save of a long run + a few others"""
     pts = {0, 1, len(kinds)}
     for j, k in enumerate(kinds):
@@ -796,18 +891,22 @@ def check(ctx):
                 'write, os.replace; and inside each write after 0 / half / all-but-one bytes) is taken twice: as an '
                 'exception (soft) and as a snapshot of the directory at that moment (hard kill); non-trivial = '
                 'distinct (grid shape, rep_max, run-2 variant, file type, stop rule, skips, event kind at the crash, '
-                'soft/hard, restart status, crash index)')
+                'soft/hard, restart status, crash index); a few scenarios are repeated with delete_partial_results_bool=True '
+                '(oracles only, no model)')
     quick = ctx.tier == 'quick'
     core.prove(ctx, MODULE, generated=GENERATED, drivers=[DRIVER], scratch=ctx.scratch)
     ctx.required_branches = ['crash:call', 'crash:tmpOpen', 'crash:tmpWrite', 'crash:rename', 'crash:Frename',
                              'crash:tear', 'soft', 'hard', 'restart:ok', 'restart:ValueError', 'resumed-mid-run',
                              'temp-file-left-by-hard-kill', 'variant:same', 'variant:repmax', 'ext:.json',
-                             'ext:none', 'oracle-ok']
+                             'ext:none', 'oracle-ok', 'crash:remove']
     try:
         rng = ctx.rng.fork('cases')
-        cases = corpus_cases() + [gen_case(rng) for _ in range(6 if quick else 150)]
+        cases = corpus_cases() + [gen_case(rng) for _ in range(40 if quick else 300)]
         for c in cases:
             run_case(ctx, c)
+        for c in corpus_cases()[:2 if quick else 5] + ([] if quick else [gen_case(rng) for _ in range(20)]):
+            if c['p1'] == c['p2']:
+                run_case_oracles_only(ctx, dict(c, delete=True))
         if not quick:
             for c in exhaustive_cases():
                 run_case(ctx, c)
@@ -815,12 +914,12 @@ def check(ctx):
                 'every crash point (exception and hard-kill snapshot, plus torn writes) of every grid shape <= 2x2 x '
                 'rep_max 1..6 x .pickle/.json x two outcome scripts (the seeded part of the run is not exhaustive)')
             brng = ctx.rng.fork('boundary')
-            for rm in (499, 500, 501, 1001):
-                for ext in ('', '.json'):
-                    c = boundary_case(rm, ext, nvar=2 if rm == 500 else 1, skips=(rm == 501))
-                    kinds, _ = trace_kinds(c, ctx.scratch)
-                    run_case(ctx, c, pts=boundary_points(kinds, brng), name='crash-restart-save-period')
-                    ctx.branch('save-period-boundary')
+            for rm, ext in ((499, ''), (500, '.json'), (501, ''), (1001, '.json')):
+                c = boundary_case(rm, ext, skips=(rm == 501))
+                kinds, _ = trace_kinds(c, ctx.scratch)
+                run_case(ctx, c, pts=boundary_points(kinds, brng), tears=(0.5,),
+                         name='crash-restart-save-period')
+                ctx.branch('save-period-boundary')
             ctx.required_branches.append('save-period-boundary')
     except core.Infra as e:
         if not ctx.broken:
